@@ -174,14 +174,17 @@ Definition eval_inc (c : ctx) (i : incl) : result cls bool :=
 Definition render_edge (c : ctx) (e : edge) : result cls iedge :=
   match render c (e_from e) with Ok f => Ok (mkIE f (e_cond e)) | Err x => Err x end.
 
-Definition instantiate (c : ctx) (r : frow) : result cls irow :=
+(* SheetParser.parse_next_row with templating: the inclusion column is evaluated first; the
+   other cells of an excluded row are not evaluated (None = excluded) *)
+Definition instantiate (c : ctx) (r : frow) : result cls (option irow) :=
+  do inc <- eval_inc c (r_inc r);
+  if negb inc then Ok None else
   do id <- render c (r_id r);
   do es <- mapM (render_edge c) (r_edges r);
-  do inc <- eval_inc c (r_inc r);
   do m <- render c (r_main r);
   do l <- mapM (render c) (r_list r);
-  Ok (mkI (r_type r) id es inc m l (r_vars r) (r_save r) (r_objid r) (r_noresp r) (r_url r)
-          (r_headers r) (r_dsheet r) (r_drow r) (r_targs r)).
+  Ok (Some (mkI (r_type r) id es true m l (r_vars r) (r_save r) (r_objid r) (r_noresp r) (r_url r)
+                (r_headers r) (r_dsheet r) (r_drow r) (r_targs r))).
 
 (* ---------------------------------------------------------------- routers and groups *)
 Inductive cref := CCat (n : nat) | CDflt | CNoResp.
@@ -521,10 +524,13 @@ Definition row_add_exit (x : xnode) (t : rtype) (conn : bool) (c : cond) : resul
       end
     end.
 
-(* the router part of NoOpNodeGroup.add_exit once a router exists *)
+(* the router part of NoOpNodeGroup.add_exit once a router exists: a blank value is the
+   default branch unless the test takes no argument *)
 Definition noop_router_exit (r : router) (conn : bool) (c : cond) : result cls router :=
   match c_val c with
-  | [] => Ok (set_cat_conn r CDflt conn)
+  | [] => if mem_str (c_typ c) no_args_tests
+          then add_choice r (or_default (c_typ c)) [Some (c_val c)] (c_name c) conn
+          else Ok (set_cat_conn r CDflt conn)
   | _ => add_choice r (or_default (c_typ c)) [Some (c_val c)] (c_name c) conn
   end.
 
